@@ -18,6 +18,8 @@ package gmtls
 //   6. VerifMarshalMessage: marshal() of a message built from canonical field strings (C15 PW cases)
 //   7. VerifPickSignatureAlgorithm and the digest selection hooks (C08 PA / PD cases)
 //   8. ecdheKeyAgreement ServerKeyExchange at byte level (C15 PE cases)
+//   9. standard-TLS key schedule helpers for VerifConn (C15 R cases, victims st / ct)
+//  10. VerifAlertNumber (C08)
 
 import (
 	"crypto"
@@ -1191,4 +1193,68 @@ func VerifECDHEGenerateServerKeyExchange(vers uint16, isRSA bool, pk string, cur
 		return nil, err
 	}
 	return skx.key, nil
+}
+
+// ---------------------------------------------------------------------------
+// 9. standard-TLS variants of the VerifConn key schedule helpers (C15 R cases, victims st / ct)
+// ---------------------------------------------------------------------------
+
+// EstablishKeysTLS is EstablishKeys for any cipher suite of the package (TLS or GM):
+// keysFromMasterSecret for c.vers and the suite, cipher specs prepared for both
+// directions according to the role, as the establishKeys functions of the handshake states do.
+func (v *VerifConn) EstablishKeysTLS(suiteID uint16, master, clientRandom, serverRandom []byte) {
+	c := v.c
+	suite := verifAnySuite(suiteID)
+	clientMAC, serverMAC, clientKey, serverKey, clientIV, serverIV :=
+		keysFromMasterSecret(c.vers, suite, master, clientRandom, serverRandom, suite.macLen, suite.keyLen, suite.ivLen)
+	var clientCipher, serverCipher interface{}
+	var clientHash, serverHash macFunction
+	if suite.cipher != nil {
+		clientCipher = suite.cipher(clientKey, clientIV, !c.isClient)
+		clientHash = suite.mac(c.vers, clientMAC)
+		serverCipher = suite.cipher(serverKey, serverIV, c.isClient)
+		serverHash = suite.mac(c.vers, serverMAC)
+	} else {
+		clientCipher = suite.aead(clientKey, clientIV)
+		serverCipher = suite.aead(serverKey, serverIV)
+	}
+	if c.isClient {
+		c.in.prepareCipherSpec(c.vers, serverCipher, serverHash)
+		c.out.prepareCipherSpec(c.vers, clientCipher, clientHash)
+	} else {
+		c.in.prepareCipherSpec(c.vers, clientCipher, clientHash)
+		c.out.prepareCipherSpec(c.vers, serverCipher, serverHash)
+	}
+}
+
+// VerifMasterSecretTLS calls masterFromPreMasterSecret for any suite of the package.
+func VerifMasterSecretTLS(vers, suiteID uint16, pms, clientRandom, serverRandom []byte) []byte {
+	return masterFromPreMasterSecret(vers, verifAnySuite(suiteID), pms, clientRandom, serverRandom)
+}
+
+// VerifNewFinishedHashTLS wraps newFinishedHash(vers, suite).
+func VerifNewFinishedHashTLS(vers, suiteID uint16) *VerifFinishedHash {
+	return &VerifFinishedHash{h: newFinishedHash(vers, verifAnySuite(suiteID))}
+}
+
+// ---------------------------------------------------------------------------
+// 10. alerts as numbers (C08: which alert did the victim send)
+// ---------------------------------------------------------------------------
+
+// VerifAlertNumber returns the alert description of an error produced by the record layer
+// for a received alert ("remote error") or a sent one ("local error"); ok is false for any
+// other error.  remote tells which of the two it was.
+func VerifAlertNumber(err error) (desc uint8, remote bool, ok bool) {
+	if err == nil {
+		return 0, false, false
+	}
+	if a, isAlert := err.(alert); isAlert {
+		return uint8(a), false, true
+	}
+	if op, isOp := err.(*net.OpError); isOp {
+		if a, isAlert := op.Err.(alert); isAlert {
+			return uint8(a), op.Op == "remote error", true
+		}
+	}
+	return 0, false, false
 }
